@@ -245,8 +245,8 @@ class Ev:
                     self.stats["T"] = True
                     return self.T
             raise Unresolved("index")
-        if proj and isinstance(proj[-1], dict) and proj[-1].get("ci") is not None and len(proj) == 1:
-            if len(ds) == 1 and ds[0][0] == "call" and str(callee(ds[0][2])[2]) == "shape" and self.is_wd(ds[0][2]["args"][0]) and proj[-1]["ci"] == 0:
+        if proj and isinstance(proj[-1], dict) and proj[-1].get("cidx") is not None and len(proj) == 1:
+            if len(ds) == 1 and ds[0][0] == "call" and str(callee(ds[0][2])[2]) == "shape" and self.is_wd(ds[0][2]["args"][0]) and proj[-1]["cidx"] == 0:
                 self.stats["T"] = True
                 return self.T
             raise Unresolved("const index")
